@@ -164,14 +164,22 @@ PROPS['C11'] = {
     'trusted': _OPS_TRUSTED,
 }
 PROPS['C06'] = {
-    'units': ['tree'],
-    'level_text': ('Proof of the consistency half: every node built by the public constructors (mk_hybrid, mk_unary, mk_binary, mk_atom, ...) from '
-                   'consistent children, and every tree returned by the token parser, satisfies wf: stored text == canonical fully parenthesised '
-                   'rendering of its structure (constants True/False, format literals read from the source) and stored height == 1 + max child height (atoms 0). '
-                   'The print/parse round trip needs the tokenizer under contract and is not claimed yet.'),
-    'level_note': 'Trusted: Verus/Z3, format! = concatenation of Display renderings (R-fmt-val), Display tables, derive(Clone). Heights below 2^32.',
-    'explanation': 'wf(node) is a postcondition of every constructor and (through `agrees`) of every parse_k; render/s_height are written from the statement in spec/syntax.rs.',
-    'trusted': ['R-fmt-val / Display tables (spec/syntax.rs)'],
+    'units': ['tree', 'lex', 'front', 'rt'],
+    'level_text': ('Proof of both halves. Consistency: every node built by the public constructors (mk_hybrid, mk_unary, mk_binary, mk_atom, ...) from '
+                   'consistent children, every tree returned by the token parser and every tree returned by the renamer satisfies wf: stored text == canonical fully '
+                   'parenthesised rendering of its structure (constants True/False, format literals read from the source) and stored height == 1 + max child height (atoms 0). '
+                   'Round trip (unit rt, lemmas over the contracts of the real tokenizer / parser / entry points): for every PRINTABLE tree t (identifiers are non-empty runs of '
+                   'name characters that the tokenizer reads back as the same kind of token; wild-cards / domains only in the extended language; no domain on a jump) the '
+                   'tokenizer specification reads render(t) as the single token tk(t) (lemma_lex_printed, induction over t for every continuation text) and the grammar reads '
+                   'tk(t) back as t (lemma_parse_tk); every tree the tokenizer + parser can return is printable (lemma_lex_pr, lemma_parse_pr) and so is every preprocessed tree '
+                   '(lemma_rename_pr). Conclusions over the proved postconditions parse_ok / preprocess_ok / wf: lemma_c06_constructed, lemma_c06_parsed, lemma_c06_preprocessed: '
+                   'parsing the stored (= printed) text returns Ok(m) with the same structure, the same stored text and the same stored height.'),
+    'level_note': ('Trusted: Verus/Z3, format! = concatenation of Display renderings (R-fmt-val), Display tables, `impl Display for HctlTreeNode` prints formula_str, derive(Clone), '
+                   'derive(PartialEq) = structural equality (the theorems conclude equal view, text and height). Heights below 2^32, texts shorter than 2^32 characters. '
+                   'A proposition name whose first character is Unicode white space AND alphanumeric is excluded (no such character exists; the Unicode tables are not axiomatised beyond ASCII).'),
+    'explanation': ('wf(node) is a postcondition of every constructor and (through `agrees`) of every parse_k; render/s_height are written from the statement in spec/syntax.rs; '
+                    'spec/roundtrip.rs (parser half), spec/roundtrip_lex.rs (tokenizer half), spec/roundtrip_closed.rs (closure + theorems over the contracts) in unit rt.'),
+    'trusted': PROPS['C05']['trusted'] + ['R-fmt-val / Display tables (spec/syntax.rs)'],
 }
 
 PROPS['C07'] = {
